@@ -9,3 +9,5 @@ def run(ctx):
     L.rule_netloc_split(ctx, "R4")
     L.rule_reader(ctx, "R5")
     L.rule_order(ctx, "R6")
+    from .c08 import walk_shape
+    walk_shape(ctx, "R7")
